@@ -20,7 +20,25 @@ BATCH = 24
 _SPACE_CACHE: Dict[str, List[scope.Case]] = {}
 
 
+def c14_space(tier: str) -> List[scope.Case]:
+    """C14: the complete space {bool, byte, uint1..64, int1..64} x offsets 0..7 x
+    {scalar, array element cap 3 (per-element path), cap 8 (batch path for standard widths),
+    alias, alias-to-array element}."""
+    kinds = [("bool", None), ("byte", None)] + [("uint", w) for w in range(1, 65)] + [("int", w) for w in range(1, 65)]
+    cases, n = [], 0
+    for kind, w in kinds:
+        for wrapper, cap in (("scalar", 0), ("arr", 3), ("arr", 8), ("alias", 0), ("alias_arr", 3), ("arr_of_alias", 8)):
+            for pad in range(8):
+                c = scope.sing_case("k%d" % n, kind, w, wrapper, cap, pad, False)
+                if c is not None:
+                    cases.append(c)
+                    n += 1
+    return cases
+
+
 def space(tier: str) -> List[scope.Case]:
+    if tier.startswith("c14:") and tier not in _SPACE_CACHE:
+        _SPACE_CACHE[tier] = c14_space(tier)
     if tier not in _SPACE_CACHE:
         quick = tier == "quick"
         cases = scope.sing_space(tier) + scope.comb_space(2 if quick else 3 if os.environ.get("BPMC_COMB3") else 2) \
@@ -43,7 +61,13 @@ def canon(c: scope.Case) -> str:
 
 
 def vmax(tier):
+    if tier.startswith("c14:"):
+        return 0  # C14's statement names the basis values: always BASIS
     return 8 if tier == "quick" else 11
+
+
+ENC_PIDS = ("C01", "C14")
+DEC_PIDS = ("C02", "C14")
 
 
 def case_features(c: scope.Case, lay) -> List[str]:
@@ -127,7 +151,7 @@ def _run_batch(pid, tier, cases, sc: Scratch, out: UnitOut, depth=0):
         for c in cases:
             _run_case(pid, tier, c, ms.module, out)
         # object histories on freshly imported modules (F5)
-        for hi, hist in enumerate(HISTORIES[1:], 1):
+        for hi, hist in enumerate(HISTORIES[1:] if pid != "C14" else (), 1):
             ms.unload()
             ms.load()
             for c in cases:
@@ -159,7 +183,7 @@ def _run_case(pid, tier, c: scope.Case, mod, out: UnitOut):
         _viol(out, pid, "pipeline", "MissingClass", "generated", c, lay, "generated module has no class %s" % c.msg.name, "")
         return
     nb = ref.nbytes(c.msg)
-    if pid == "C01" and getattr(cls, "BYTES_LENGTH", None) != nb:
+    if pid in ENC_PIDS and getattr(cls, "BYTES_LENGTH", None) != nb:
         _viol(out, pid, "bytes_length", "mismatch", "generated:BYTES_LENGTH", c, lay,
               "BYTES_LENGTH=%r expected %d" % (getattr(cls, "BYTES_LENGTH", None), nb), "")
     first = True
@@ -167,7 +191,7 @@ def _run_case(pid, tier, c: scope.Case, mod, out: UnitOut):
         expect = ref.encode(c.msg, vec, lay)
         out.count("transitions", 2)
         nontrivial = any(vec) and len(lay) > 1
-        if pid == "C01":
+        if pid in ENC_PIDS:
             try:
                 with watchdog(10):
                     o = cls()
@@ -190,7 +214,7 @@ def _run_case(pid, tier, c: scope.Case, mod, out: UnitOut):
                 out.sample(dict(schema=schema_text(c)[scope.make_batch([c]).filename][-400:], value=vec,
                                 expected_bytes=expect.hex(), observed_bytes=got.hex(), mode=mode))
                 first = False
-        else:  # C02
+        if pid in DEC_PIDS:
             try:
                 with watchdog(10):
                     m2 = cls()
